@@ -182,7 +182,11 @@ type segMeta struct {
 func findSegMetaFromTime(a *asset, rep *RepData, time uint64, cfg *ResponseConfig, nowMS int) (segMeta, error) {
 	mediaRef := cfg.StartTimeS * rep.MediaTimescale // TODO. Add period + PTO
 	wrapDur := a.LoopDurMS * rep.MediaTimescale / 1000
-	nrWraps := int(time) / wrapDur
+	firstStart := int(rep.Segments[0].StartTime) // The VoD track may start at a time other than zero
+	if int(time) < firstStart {
+		return segMeta{}, fmt.Errorf("time before first segment: %w", errNotFound)
+	}
+	nrWraps := (int(time) - firstStart) / wrapDur
 	wrapTime := nrWraps * wrapDur
 	timeAfterWrap := int(time) - wrapTime
 	idx := rep.findSegmentIndexFromTime(uint64(timeAfterWrap))
